@@ -69,7 +69,21 @@ def recipes(fams):
 
 
 def make_streams(recs):
-    return [mk(r['name'], r['maker'], **r['kw'])[0] for r in recs]
+    """-> executor stream arguments; a half-rate recipe is the same file passed as hr:<path>"""
+    return [('hr:' if r.get('hr') else '') + mk(r['name'], r['maker'], **r['kw'])[0] for r in recs]
+
+
+def hr_recipes(recs, wanted):
+    """Half-rate twins of existing recipes: wanted = [(family, style)]; same file, decoded with vorbis_synthesis_halfrate(vi,1)."""
+    out = []
+    for f, st in wanted:
+        r = [x for x in recs if x['family'] == f and x['style'] == st][0]
+        out.append(dict(r, hr=True))
+    return out
+
+
+def hr_tag(cases):
+    return [(line, (sig[0], 'hr_' + sig[1], sig[2])) for line, sig in cases]
 
 
 def stream_info(exe, paths):
@@ -200,7 +214,7 @@ def absorb(chk, acc, cases, res, recs, infos, flavour, fixed):
             acc.tot['skipped'] += 1
             acc.kinds[kind]['skipped'] += 1
             continue
-        desc = f"stream {recs[si]['name']} ({infos[si]['blocks']}) case '{line}' [{flavour}]: {r[:300]}"
+        desc = f"stream {recs[si]['name']}{' at HALF RATE' if recs[si].get('hr') else ''} ({infos[si]['blocks']}) case '{line}' [{flavour}]: {r[:300]}"
         chk.violation(vkey(kind, style, d, status), desc,
                       {'case': line, 'flavour': flavour, 'recipes': recs, 'fixed': fixed, 'result': r[:400], 'first_failing_inner': d.get('inner')})
 
@@ -222,6 +236,9 @@ def run(tier):
     exe_asan = vlib.harness('asan', 'c11_damage')
     fams = ['a8k', 'b16k', 'c44k', 'd8k_imp', 'e8k_alt'] + (['a8k_long', 'b16k_clicks', 'c44k_long'] if tier == 'thorough' else [])
     recs = recipes(fams)
+    # half-rate pass: streams whose short block is > 64 samples and that really switch between short and long blocks
+    hr_wanted = [('c44k', 'page')] + ([('c44k', 'every'), ('b16k_clicks', 'page'), ('b16k_clicks', 'every'), ('b16k', 'page'), ('c44k_long', 'page')] if tier == 'thorough' else [])
+    recs += hr_recipes(recs, hr_wanted)
     paths = make_streams(recs)
     infos = stream_info(exe, paths)
     # the quick tier is sized to fit its budget and is never cut; thorough stops starting new phases 21 min after the build
@@ -229,7 +246,7 @@ def run(tier):
     # --- preconditions on the zoo (vacuity guards)
     okzoo = True
     for f in fams:
-        e, p, t = [i for i, r in enumerate(recs) if r['family'] == f]
+        e, p, t = [i for i, r in enumerate(recs) if r['family'] == f and not r.get('hr')]
         okzoo &= infos[e]['packets_hash'] == infos[p]['packets_hash']
         chk.cov['evaluations'] += 1
         if infos[e]['pcm_hash'] != infos[p]['pcm_hash'] or infos[e]['counts'] != infos[p]['counts']:
@@ -287,13 +304,14 @@ def run(tier):
         phases_done.append(f'{name}:{len(cases)} case lines:{time.time() - ts:.1f}s')
 
     def fam_idx(f):
-        return [i for i, r in enumerate(recs) if r['family'] == f]
+        return [i for i, r in enumerate(recs) if r['family'] == f and not r.get('hr')]
 
     quick_fams = ['a8k', 'b16k', 'c44k', 'd8k_imp', 'e8k_alt']
     # --- page-level damage through vorbisfile (all streams incl. twins)
     pgc = []
     for si in range(len(recs)):
-        pgc += page_cases(si, paths[si])
+        if not recs[si].get('hr'):
+            pgc += page_cases(si, paths[si])
     phase('pages', pgc)
     # --- ASan pass: all bit flips + truncations of the smallest stream (both styles)
     small = [i for i, r in enumerate(recs) if r['family'] == 'a8k' and r['style'] != 'twin']
@@ -311,6 +329,12 @@ def run(tier):
         e, p, t = fam_idx(f)
         singles += single_cases(e, infos[e], [t], e)
         singles += single_cases(p, infos[p], [t], p)
+    def hr_idx(f, st):
+        return [i for i, r in enumerate(recs) if r.get('hr') and r['family'] == f and r['style'] == st][0]
+
+    # half-rate pass (quick): every single disturbance incl. all bit flips, truncations, restarts on the 44.1 kHz page-style stream
+    hq = hr_idx('c44k', 'page')
+    singles += hr_tag(single_cases(hq, infos[hq], [fam_idx('c44k')[2]], hq))
     phase('single', singles)
     if tier == 'thorough':
         # pairs of disturbances: every k1<k2 x 7x7 simple operations
@@ -323,6 +347,14 @@ def run(tier):
             for st in (1, 0):
                 si = fam_idx(f)[st]
                 phase(f'pairs_flip_{f}_{recs[si]["style"]}', pair_cases_flip(si, infos[si]))
+        # half-rate: the remaining switching streams (all single disturbances), pairs on the 44.1 kHz stream
+        for f, st in hr_wanted[1:]:
+            si = hr_idx(f, st)
+            cs = hr_tag(single_cases(si, infos[si], [fam_idx(f)[2]], si))
+            phase(f'halfrate_single_{f}_{st}_structural', [c for c in cs if c[1][1] not in ('hr_flip', 'hr_trunc')])
+            phase(f'halfrate_single_{f}_{st}_flip_trunc', [c for c in cs if c[1][1] in ('hr_flip', 'hr_trunc')])
+        phase('halfrate_pairs_simple_c44k_page', hr_tag(pair_cases_simple(hq, infos[hq])))
+        phase('halfrate_pairs_flip_c44k_page', hr_tag(pair_cases_flip(hq, infos[hq])))
         # longer streams: all single disturbances (split so that the deadline cuts at a phase boundary)
         for f in ['a8k_long', 'b16k_clicks', 'c44k_long']:
             e, p, t = fam_idx(f)
@@ -332,7 +364,7 @@ def run(tier):
                 phase(f'single_{f}_{recs[si]["style"]}_flip_trunc', [c for c in cs if c[1][1] in ('flip', 'trunc')])
 
     # --- coverage
-    nontrivial = sorted(s for s, c in acc.by.items() if c['obs'] > 0 and (c['acc'] > 0 or s[1] in ('dropgap', 'drop') or s[1].startswith(('pair_', 'pg'))))
+    nontrivial = sorted(s for s, c in acc.by.items() if c['obs'] > 0 and (c['acc'] > 0 or s[1].replace('hr_', '', 1) in ('dropgap', 'drop') or s[1].replace('hr_', '', 1).startswith(('pair_', 'pg'))))
     T = acc.tot
     flips = acc.kinds['flip']
     samples = []
@@ -364,7 +396,7 @@ def run(tier):
         'start_trim_exemption_applied': T['sx'],
         'vorbisfile_page_cases': {k: dict(v) for k, v in sorted(acc.kinds.items()) if k.startswith('pg')},
         'skipped_case_lines': T['skipped'],
-        'streams': [{'name': r['name'], 'packets': i['packets'], 'bytes': i['bytes'], 'blocks': i['blocks'], 'granule_packets': i['granule_packets'], 'ch': i['ch'], 'silent_channel_mask': i['zeroch']} for r, i in zip(recs, infos)],
+        'streams': [{'name': r['name'], 'packets': i['packets'], 'bytes': i['bytes'], 'blocks': i['blocks'], 'granule_packets': i['granule_packets'], 'ch': i['ch'], 'silent_channel_mask': i['zeroch'], 'halfrate': bool(r.get('hr')), 'clean_samples': i['samples']} for r, i in zip(recs, infos)],
         'phases': phases_done,
         'transition_kinds_hit_by_observable_flips': sorted(trans_hit),
     })
@@ -374,6 +406,7 @@ def run(tier):
         'streams start at granule 0 without initial trimming (a lost packet in a first page with start trimming makes the trim amount unknowable; not judged)',
         'restart histories come from streams with a byte-identical identification+setup header',
         'outputs are taken by one pcmout/read drain after every packet',
+        'half-rate pass: packet level only (vorbis_synthesis_halfrate before vorbis_synthesis_init); page-level half-rate through vorbisfile is C20 territory',
         'page level: OV_HOLE is demanded except for a missing first audio page of a seekable open (vorbisfile restarts the stream state there, the gap is not detectable); tail judged only when a complete page follows the page after the gap',
     ]
     chk.guard(flips['acc'] > 0 and flips['obs'] > 0, 'some bit flips were accepted and changed the audio of packet k/k+1')
@@ -383,6 +416,10 @@ def run(tier):
     chk.guard(len([t for t in trans_hit]) >= 4, 'observable accepted flips at packets before and after short->long and long->short transitions')
     chk.guard(acc.kinds['restart_twin']['n'] > 0 and acc.kinds['restart_twin']['skipped'] == 0 and acc.kinds['restart_twin']['obs'] > 0, "restart after a prefix of a DIFFERENT stream's packets covered")
     chk.guard(acc.kinds['flip_asan']['n'] > 0, 'ASan pass over all bit flips of the smallest stream ran')
+    hrf = acc.kinds['hr_flip']
+    chk.guard(infos[hq]['halfrate'] == 1 and infos[hq]['samples'] * 2 == infos[fam_idx('c44k')[1]]['samples'] and hrf['n'] > 0 and hrf['obs'] > 0 and hrf['bsz'] > 0
+              and all(acc.kinds['hr_' + k]['n'] > 0 and acc.kinds['hr_' + k]['skipped'] == 0 for k in ('dropgap', 'drop', 'dup', 'dupr', 'zero', 'restart_own', 'restart_twin', 'trunc', 'repl')),
+              'half-rate pass ran on a stream that switches short/long: clean output is half as long, all kinds incl. every bit flip executed, some flips observable and some changing the block size')
     chk.guard(T['skipped'] == 0 or tier == 'thorough', 'no case line skipped')
     chk.guard(all(acc.kinds[k + m]['obs'] > 0 for k in ('pgdrop', 'pgcrc', 'pgdup') for m in ('_seekable', '_streaming')), 'page-level damage through vorbisfile (seekable and streaming) changed the output and was judged')
     chk.guard(T['ex'] > 0 and T['ex'] * 20 < T['n'], 'final-count exemption is exercised but narrow (<5% of damaged histories)')
